@@ -579,7 +579,12 @@ func genHeaderName(r *rand.Rand, name string) string {
 }
 
 func genDocBody(r *rand.Rand, stamp string) string {
-	switch weighted(r, 12, 1, 1, 1, 1, 1, 1, 1) {
+	switch weighted(r, 12, 1, 1, 1, 1, 1, 1, 1, 1) {
+	case 8:
+		/* well-formed JSON the decoder still refuses, but only once it has read all of it: a
+		   number no float64 holds (the rest of the object is decoded meanwhile) */
+		return pick(r, []string{"{\"stamp\":\"" + stamp + "\",\"n\":1e400}", "{\"n\":-1e999,\"stamp\":\"" + stamp + "\",\"type\":\"Note\"}",
+			"{\"stamp\":\"" + stamp + "\",\"m\":[1,{\"k\":123456789e999}]}", "{\"stamp\":\"" + stamp + "\",\"totalItems\":1e309,\"type\":\"Collection\"}"})
 	case 1:
 		return "[1,2]"
 	case 2:
@@ -667,7 +672,7 @@ func genResponse(r *rand.Rand, stamp string, status string, location string) str
 }
 
 /*
-DISABLED ON PURPOSE (a defect of the code as it stands, reported, not repaired): the cache of
+Was disabled while the defect stood (repaired in the code since: the cache key carries the tolerated types): the cache of
 jtp.Get is keyed by the URL alone, so a document fetched by a request that tolerates its media
 type is handed from the cache to a later request that does not (webfinger tolerates
 application/jrd+json, FetchURL does not, and the other way round for application/activity+json;
